@@ -124,6 +124,11 @@ func init() {
 	reg("audit.put/1/", func(w *world, k int) *fixture {
 		return plain(w.h["audit"], "put", atoms{"KEY": w.ir[0]}, auditBlob(uint64(100+k), w.sample.cid, chain.Pub(w.ir[0])))
 	})
+	// the result names the LAST designated key: another Inner Ring member's witness must not be enough (eighth batch, C03f)
+	reg("audit.put/1/other", func(w *world, k int) *fixture {
+		key := w.ir[len(w.ir)-1]
+		return plain(w.h["audit"], "put", atoms{"KEY": key}, auditBlob(uint64(300+k), w.sample.cid, chain.Pub(key)))
+	})
 	reg("audit.put/1/outsider", func(w *world, k int) *fixture {
 		key := w.newAcc("auditor", 10_0000_0000)
 		return plain(w.h["audit"], "put", atoms{"KEY": key}, auditBlob(uint64(200+k), w.sample.cid, chain.Pub(key)))
